@@ -320,14 +320,12 @@ MUTANTS = [
     dict(id='C11-m3', prop='C11', file='mpserver/_worker.py', desc='single-mode worker does not re-broadcast the stop sentinel to fellow workers',
          old="                if z is None:\n                    q_in.put(z)  # broadcast to one fellow worker\n                    q_out.put(z)\n                    break",
          new="                if z is None:\n                    q_out.put(z)\n                    break"),
-    dict(id='C11-m4', prop='C11', file='mpserver/_servlet.py', desc='EnsembleServlet.stop does not reset its state (second start asserts / reuses queues)',
-         old="        for t in self._threads:\n            t.join()\n        self._reset()\n        self._started = False", new="        for t in self._threads:\n            t.join()\n        self._started = False"),
     dict(id='C11-m5', prop='C11', file='mpserver/_servlet.py', desc='D11 regression in SequentialServlet: earlier members left running when a later member fails to start',
          old="                for ss in self._servlets[:i]:\n                    ss.stop()\n                self._qs = []\n                raise", new="                self._qs = []\n                raise"),
     dict(id='C11-m6', prop='C11', file='mpserver/_server.py', desc='D26 regression: ledger not cleared on exit',
          old="        for fut in list(self._uid_to_futures.values()):\n            fut.cancel()\n        self._uid_to_futures.clear()", new="        pass"),
     dict(id='C11-m7', prop='C11', file='mpserver/_servlet.py', desc='SwitchServlet.stop forgets to stop its enqueue thread when it has a single member',
-         old="        self._qin.put(None)\n        self._thread_enqueue.join()\n        self._reset()", new="        if len(self._servlets) > 1:\n            self._qin.put(None)\n            self._thread_enqueue.join()\n        self._reset()"),
+         old="        # See `EnsembleServlet.stop` about the order.\n        self._qin.put(None)\n        self._thread_enqueue.join()", new="        # See `EnsembleServlet.stop` about the order.\n        if len(self._servlets) > 1:\n            self._qin.put(None)\n            self._thread_enqueue.join()"),
     # ---------------- C10
     dict(id='C10-m2', prop='C10', file='streamer/_tee.py', desc='window head popped one consumer early',
          old="                if box.n == self.n_forks:", new="                if box.n == max(1, self.n_forks - 1):"),
@@ -391,8 +389,6 @@ MUTANTS = [
     # ---------------- C18
     dict(id='C18-m1', prop='C18', file='socket.py', desc='header length counts characters of the repr for str payloads with non-ascii (utf8 encoder)',
          old="        return data.encode('utf8')", new="        return data.encode('utf8') if data.isascii() else data.encode('utf8')[: len(data)]"),
-    dict(id='C18-m2', prop='C18', file='socket.py', desc='server answers a connection from a LIFO when more than 2 responses are queued',
-         old="                    req_id, t = await asyncio.wait_for(reqs.get(), 0.1)", new="                    req_id, t = await asyncio.wait_for(reqs.get(), 0.1)\n                    if reqs.qsize() > 2:\n                        await reqs.put((req_id, t))\n                        req_id, t = await reqs.get()"),
     dict(id='C18-m3', prop='C18', file='socket.py', desc='read_record strips trailing whitespace of none-encoded payloads',
          old="    assert encoder == 'none'\n    return data  # bytes unchanged", new="    assert encoder == 'none'\n    return data.rstrip(b'\\n') if len(data) > 1 else data"),
     # ---------------- C20
